@@ -21,7 +21,7 @@ Lenient == Has(Sc, "errors") /\ Sc.errors = "warn"
 ErrInjected == Has(Sc, "err")
 
 St0 == [yielded |-> <<>>, served |-> {}, req |-> [oids |-> <<>>, kind |-> "none", maxrep |-> 0], nreq |-> 0,
-        asked |-> {}, revealed |-> {}, gnFault |-> FALSE, nonAdv |-> FALSE, faultAt |-> 0,
+        asked |-> {}, revealed |-> {}, gnFault |-> FALSE, nonAdv |-> FALSE, faultAt |-> 0, stuckSeen |-> FALSE,
         pred |-> <<>>, predEnd |-> FALSE, predY |-> <<>>, contFrom |-> <<>>, drift |-> 0]
 
 AsVbs(vbs) == [i \in DOMAIN vbs |-> [oid |-> vbs[i][1], eomv |-> vbs[i][2] = -1]]
@@ -61,6 +61,9 @@ OnResp(s, e) ==
   IN [st |-> [s EXCEPT !.revealed = @ \cup { got[k].oid : k \in { j \in DOMAIN got : ~got[j].eomv } },
                        !.served = @ \cup { <<e.vbs[k][1], e.vbs[k][2]>> : k \in DOMAIN e.vbs },
                        !.gnFault = @ \/ gnF, !.nonAdv = @ \/ anyNA,
+                       \* the walk cannot go on from where the agent put it: for a root that is not finished, the last OID received does not lie
+                       \* beyond the one it was continued from (whichever fetcher is used)
+                       !.stuckSeen = @ \/ (ok /\ stuck),
                        !.faultAt = IF @ = 0 /\ gnF THEN l ELSE @,
                        !.pred = IF stop THEN <<>> ELSE [i \in DOMAIN unf |-> unf[i][2]],
                        !.predEnd = stop \/ unf = <<>>,
@@ -82,9 +85,15 @@ OnEnd(s, e) ==
       dr == IF isWalk /\ e.outcome = "done" /\ s.yielded # s.predY THEN 1 ELSE 0
            + IF (e.outcome = "done") # (s.predEnd /\ (s.faultAt = 0 /\ ~(\E i \in DOMAIN s.pred : TRUE))) THEN 0 ELSE 0
   IN [st |-> [s EXCEPT !.drift = @ + dr],
-      cl |-> IF ErrInjected /\ \E i \in DOMAIN Ev : Ev[i].e = "resp" /\ Ev[i].es # 0
+      cl |-> IF Has(Sc, "idonly")
+             THEN \* C07: an answer with a foreign request-id inside a walk raises InvalidResponseId in every error mode
+                  << <<"foreign_id_ends_walk", e.outcome # "done">>, <<"wrong_id_other_exception", e.outcome = "InvalidResponseId">> >>
+             ELSE IF ErrInjected /\ \E i \in DOMAIN Ev : Ev[i].e = "resp" /\ Ev[i].es # 0
              THEN \* C08: a walk-style operation propagates the agent's error (documented exception: noSuchName ends the walk)
-                  IF Has(Sc.err, "iddelta") /\ Sc.err.iddelta # 0
+                  IF Has(Sc.err, "foreign")
+                  THEN \* C07: the error response is of another community / version: refused as such, it neither ends the walk nor is its error reported
+                       << <<"foreign_message_ends_walk", e.outcome # "done">>, <<"foreign_message_error_reported", e.outcome = "SnmpError">> >>
+                  ELSE IF Has(Sc.err, "iddelta") /\ Sc.err.iddelta # 0
                   THEN \* C07: the error response carries another request-id - it must not end (or fail) the walk as if it were the answer
                        << <<"wrong_id_error_ends_walk", e.outcome # "done">>, <<"wrong_id_other_exception", e.outcome = "InvalidResponseId">> >>
                   ELSE << <<"error_not_propagated", IF Sc.err.es = 2 THEN e.outcome \in {"done", "NoSuchOID"} ELSE e.outcome = ErrClass(Sc.err.es)>> >>
@@ -97,6 +106,8 @@ OnEnd(s, e) ==
                      <<"unexpected_exception", e.outcome \in {"done", "FaultySNMPImplementation"}>>,
                      <<"wrong_outcome_lenient", ~Lenient \/ e.outcome = "done">>,
                      <<"wrong_outcome_strict", Lenient \/ ~s.gnFault \/ e.outcome = "FaultySNMPImplementation">>,
+                     \* ... and a strict walk that stops because the agent does not advance says so - it does not end as if the subtree were exhausted
+                     <<"silent_end_on_non_advancing_agent", Lenient \/ ~s.stuckSeen \/ e.outcome = "FaultySNMPImplementation">>,
                      <<"spurious_faulty", e.outcome # "FaultySNMPImplementation" \/ s.nonAdv>> >>]
 
 On(s, e) ==
